@@ -218,6 +218,36 @@ def tlc_validate(trace_module, tconsts, prop, shard, workdir, tag, extra_env=Non
     raise ToolError('TLC trace validation failed without a verdict (%s, rc=%s): %s\n%s' % (tag, rc, errs, tail))
 
 
+# --------------------------------------------------------------------------- Apalache (unbounded step)
+LEN_MODULES = {'raw': ('RawLRULen', False), 'slru': ('SegmentedLen', True), '2q': ('TwoQueueLen', True),
+               'arc': ('AdaptiveLen', True), 'wtlfu': ('WTinyLFULen', True)}
+
+
+def apalache_inductive(module, has_consts, workdir, timeout=900):
+    """Init => IndInv (length 0) and IndInv /\\ Next => IndInv' (length 1 from IndInit) with symbolic sizes"""
+    res = dict(module=module, obligations=2, discharged=0, runs=[])
+    for name, init, length in (('base', 'Init', 0), ('step', 'IndInit', 1)):
+        out = os.path.join(workdir, 'apa-%s-%s' % (module, name))
+        cmd = ['apalache-mc', 'check', '--init=' + init, '--inv=IndInv', '--length=%d' % length, '--out-dir=' + out]
+        if has_consts:
+            cmd.insert(2, '--cinit=ConstInit')
+        cmd.append(os.path.join(SPEC, module + '.tla'))
+        t0 = time.time()
+        try:
+            p = subprocess.run(cmd, cwd=workdir, stdout=subprocess.PIPE, stderr=subprocess.STDOUT, text=True, timeout=timeout,
+                               env=dict(os.environ, JVM_ARGS='-Xmx3g'))
+        except subprocess.TimeoutExpired:
+            raise ToolError('apalache timeout on %s/%s' % (module, name))
+        ok = 'EXITCODE: OK' in p.stdout and 'NoError' in p.stdout
+        res['runs'].append(dict(obligation=name, ok=ok, wall_s=round(time.time() - t0, 1), cmd=' '.join(cmd[:6])))
+        shutil.rmtree(out, ignore_errors=True)
+        if ok:
+            res['discharged'] += 1
+        else:
+            res['output_tail'] = p.stdout[-1500:]
+    return res
+
+
 # --------------------------------------------------------------------------- harness exec
 def harness_exec(binary, kind, cfg, keys, infile, outprefix, flags=(), shard=20000, extra=(), timeout=3600):
     cmd = [binary, 'exec', '--kind', kind, '--cfg', json.dumps(cfg), '--keys', str(keys), '--in', infile,
